@@ -36,7 +36,7 @@ RULE = ("generated TsCore programs are rewritten by 1–4 random rewrites (permu
 def run(chk):
     chk.build_rust(); chk.build_js()
     quick = chk.tier == "quick"
-    passes = [_corpus] + ([_pass(chk.seed * 100 + 5, 1200, 10, "rewrite(random)")] if quick else
+    passes = [_corpus] + ([_pass(chk.seed * 100 + 5, 3000, 10, "rewrite(random)")] if quick else
                           [_pass(chk.seed * 100 + k, 6000, 16, f"rewrite(random#{k})") for k in range(6)])
     return vcheck.generic_run(chk, MODULES, AUDIT, passes,
         ["C08: same models as C01 (TsCore, lowering, IR, printer, reference semantics); the rewrites are applied by harness/js/mode_prog.mjs on the TsCore term and rendered as TypeScript",
